@@ -26,7 +26,7 @@ LEVEL_NOTE = ("Trusted: vlib/render.py emits the same IR in both layouts. Delibe
 DESIGN_REF = "DESIGN.md §3 C16"
 ASSUMPTIONS = ["canonical rendering is accepted whenever any re-layout is expected to be"]
 
-PROFILE = progen.Profile(max_stmts=12, incbin=True, big_incbin=False)
+PROFILE = progen.Profile(max_stmts=12, incbin=True, big_incbin=False, text=True)
 N_LAYOUTS = {"quick": 8, "thorough": 32}
 
 
